@@ -142,6 +142,56 @@ func checkC15(c Node) Verdict {
 			return fail("result", desc+" via "+sql, sig, "row kept = %v, want %v", len(out.Rows) == 1, t.keep)
 		}
 	}
+	// ORDER BY sorts the two values as the comparison orders them (equal keys: either order)
+	ident := func(x any) string { return fmt.Sprintf("%T:%v", x, x) }
+	for _, dir := range []string{"", " DESC"} {
+		if want == 0 {
+			break
+		}
+		doc := map[string]any{"t": []any{map[string]any{"id": 1, "x": a}, map[string]any{"id": 2, "x": b}}}
+		sql := "SELECT id, x FROM t ORDER BY x" + dir
+		out := Run(doc, sql, false)
+		v.Execs++
+		if out.Panic != nil || out.Err != nil {
+			return fail("error", desc+" via "+sql, sig, "%s", out.Describe())
+		}
+		first, second := a, b
+		if (want > 0) != (dir != "") {
+			first, second = b, a
+		}
+		ok := len(out.Rows) == 2
+		if ok {
+			r0, _ := out.Rows[0].(map[string]any)
+			r1, _ := out.Rows[1].(map[string]any)
+			ok = r0 != nil && r1 != nil && ident(r0["x"]) == ident(first) && ident(r1["x"]) == ident(second)
+		}
+		if !ok {
+			return fail("result", desc+" via "+sql, append(sig, "orderby"), "want %s before %s, got %s", ident(first), ident(second), Canon(any(out.Rows)))
+		}
+	}
+	// IN over a list holding the other value, and an equi-join on the two values: kept iff cmp = 0
+	{
+		doc := map[string]any{"t": []any{map[string]any{"x": a, "y": b}}}
+		sql := "SELECT * FROM t WHERE x IN (y)"
+		out := Run(doc, sql, false)
+		v.Execs++
+		if out.Panic != nil || out.Err != nil {
+			return fail("error", desc+" via "+sql, sig, "%s", out.Describe())
+		}
+		if (len(out.Rows) == 1) != (want == 0) {
+			return fail("result", desc+" via "+sql, append(sig, "in"), "row kept = %v, want %v", len(out.Rows) == 1, want == 0)
+		}
+		doc = map[string]any{"l": []any{map[string]any{"x": a}}, "r": []any{map[string]any{"y": b}}}
+		sql = "SELECT * FROM l p JOIN r q ON p.x = q.y"
+		out = Run(doc, sql, false)
+		v.Execs++
+		if out.Panic != nil || out.Err != nil {
+			return fail("error", desc+" via "+sql, sig, "%s", out.Describe())
+		}
+		if (len(out.Rows) == 1) != (want == 0) {
+			return fail("result", desc+" via "+sql, append(sig, "join"), "row joined = %v, want %v", len(out.Rows) == 1, want == 0)
+		}
+	}
 	return v
 }
 
